@@ -2,7 +2,7 @@
 module already use (applications register their converters in whatever module gets imported first)."""
 from xsdata.formats.converter import Converter, converter
 
-from sim.pool.m_edge import Sku
+from sim.pool.m_edge import LooseEnum, Sku
 
 
 class SkuConverter(Converter):
@@ -18,3 +18,22 @@ class SkuConverter(Converter):
 
 
 converter.register_converter(Sku, SkuConverter())
+
+
+class LooseEnumConverter(Converter):
+    """Registered for the BASE class: enumerations deriving from it are found through the mro."""
+
+    def deserialize(self, value, **kwargs):
+        data_type = kwargs.get("data_type")
+        for member in data_type or ():
+            if str(member.value).lower() == str(value).strip().lower():
+                return member
+        from xsdata.exceptions import ConverterError
+
+        raise ConverterError(f"no member like {value!r}")
+
+    def serialize(self, value, **kwargs):
+        return str(value.value).upper()
+
+
+converter.register_converter(LooseEnum, LooseEnumConverter())
